@@ -2,17 +2,17 @@
     [uid_ok], [sn_ok] (identifier grammar, property C10) and [verify] (one third-party-invite
     signature check, property C02) are universally quantified: external behaviour. *)
 From Base Require Import Prelude Sx Json Rules.
-From Gen Require Import RoomRules.
-From C08 Require Import Types Model Spec Proofs1 Proofs2 Proofs3 Proofs4.
+From Gen Require Import RoomRules TypeAliases.
+From C08 Require Import Types Model Spec Known Proofs1 Proofs2 Proofs3 Proofs4.
 
 (** For every room version 1-11 (rules regenerated from the code), every event and every room
     state: the model of ruma's [auth_check] accepts exactly when the specification's
-    authorization rules for that version number accept — outside the two known deviation
-    classes (open findings C08-pl-strict, C08-serde-shapes). *)
+    authorization rules for that version number accept — outside the three known deviation
+    classes (open findings C08-pl-strict, C08-serde-shapes, C08-type-alias). *)
 Theorem C08_auth_eq_spec :
   forall (uid_ok sn_ok : str -> bool) (verify : str -> str -> str -> obj -> bool)
          (v : N) (R : room_rules) (ev : event) (st : state),
-  rules_of v = Some R -> wf_inputs v ev -> known_deviation v ev st = false ->
+  rules_of v = Some R -> wf_inputs v ev st -> known_deviation v ev st = false ->
   auth_check uid_ok sn_ok verify (authorization R) ev st = spec_auth uid_ok sn_ok verify v ev st.
 Proof. exact auth_eq_spec_versions. Qed.
 Eval compute in "PA:C08_auth_eq_spec"%string.
@@ -31,7 +31,7 @@ Print Assumptions C08_rules_table.
 Theorem C08_auth_eq_spec_generic :
   forall (uid_ok sn_ok : str -> bool) (verify : str -> str -> str -> obj -> bool)
          (v : N) (r : auth_rules), rules_agree v r -> forall (ev : event) (st : state),
-  wf_inputs v ev -> known_deviation v ev st = false ->
+  wf_inputs v ev st -> known_deviation v ev st = false ->
   auth_check uid_ok sn_ok verify r ev st = spec_auth uid_ok sn_ok verify v ev st.
 Proof. exact auth_eq_spec. Qed.
 Eval compute in "PA:C08_auth_eq_spec_generic"%string.
@@ -66,7 +66,7 @@ Print Assumptions C08_pl_strict_rejected.
 (** ... and the class is not empty: an event of the class that the rules allow. *)
 Theorem C08_pl_strict_witness :
   let ok := fun _ : str => true in let vf := fun (_ _ _ : str) (_ : obj) => false in
-  pl_strict 9 w_pl = true /\ wf_inputs 9 w_pl /\
+  pl_strict 9 w_pl = true /\ wf_inputs 9 w_pl (w_state []) /\
   spec_auth ok ok vf 9 w_pl (w_state []) = true /\
   auth_check ok ok vf (authorization rules_v9) w_pl (w_state []) = false.
 Proof. exact pl_strict_witness. Qed.
@@ -83,3 +83,10 @@ Theorem C08_serde_shapes_witness :
 Proof. exact serde_shapes_witness. Qed.
 Eval compute in "PA:C08_serde_shapes_witness"%string.
 Print Assumptions C08_serde_shapes_witness.
+
+(** Known class [type_alias]: for every alias of the generated table, a witness on which the
+    rules allow and the model of ruma (which reads the key as the standard type) rejects. *)
+Theorem C08_type_alias_witness : forallb alias_witness_ok type_aliases = true.
+Proof. exact type_alias_witness. Qed.
+Eval compute in "PA:C08_type_alias_witness"%string.
+Print Assumptions C08_type_alias_witness.
